@@ -87,6 +87,28 @@ fn c19() {
     println!("NONE {}", cases);
 }
 
+/// C01 (CSS text): every string over a small alphabet of CSS tokens, through add_css and through a <style> element
+fn c01_css() {
+    let toks = ["\\41", " ", "\u{2003}", "{", "}", ":", ";", "\"", "'", "/*", "*/", "!important", "#f00", ".a", "(", ")", ",", ">", "color", "\\", "\n", "2n+1", ":nth-child"];
+    let maxlen = if std::env::var("VERIF_TIER").map(|t| t == "thorough").unwrap_or(false) { 4 } else { 3 };
+    let mut cases = 0u64;
+    let mut idx = vec![0usize; 1];
+    loop {
+        let css: String = idx.iter().map(|&i| toks[i]).collect();
+        cases += 1;
+        let c1 = css.clone();
+        if panic::catch_unwind(move || { let _ = config::plain().add_css(&c1); }).is_err() { found("c01_css", &format!("add_css({:?})", css), "panic"); }
+        let html = format!("<style>{}</style><p class=a>x</p>", css);
+        let h = html.clone();
+        if panic::catch_unwind(move || { let _ = config::plain().use_doc_css().string_from_read(h.as_bytes(), 20); }).is_err() { found("c01_css", &format!("use_doc_css html={:?}", html), "panic"); }
+        // next index vector
+        let mut k = 0;
+        while k < idx.len() { idx[k] += 1; if idx[k] < toks.len() { break; } idx[k] = 0; k += 1; }
+        if k == idx.len() { if idx.len() == maxlen { break; } idx.push(0); }
+    }
+    println!("NONE {}", cases);
+}
+
 /// C19 (one block): several declarations of one property inside one rule block or one style attribute: the last important one
 /// wins if there is one, otherwise the last one
 fn c19_block() {
@@ -478,6 +500,7 @@ fn main() {
         "c19" => c19(),
         "c19_inherit" => c19_inherit(),
         "c19_block" => c19_block(),
+        "c01_css" => c01_css(),
         "c19_order" => c19_order(),
         "dbg" => dbg(),
         "dbgcss" => dbgcss(),
